@@ -1,6 +1,6 @@
 (* C31 proofs, part B: the challenge key (base64 decoding into a fixed buffer), the handshake
    decision against the specification, negotiated subprotocol / extension were offered. *)
-From Coq Require Import List NArith Bool Arith Lia ZifyN ZifyNat ZifyBool.
+From Coq Require Import String List NArith Bool Arith Lia ZifyN ZifyNat.
 From Cfg Require Import Gen.WsConst Model.WsHandshake Model.WsHandshakeSpec Model.WsCloseSpec Proofs.WsLib Proofs.WsHandshakeA.
 Import ListNotations.
 Open Scope N_scope.
@@ -149,18 +149,18 @@ Lemma b64_no_panic : forall cap src j n,
 Proof.
   intros cap src. induction src as [|c rest IH]; intros j n Hj Hb; simpl.
   - destruct (j =? 0); discriminate.
-  - simpl length in Hb. destruct (is_b64 c).
+  - cbn [length] in Hb. rewrite Nat2N.inj_succ in Hb. destruct (is_b64 c).
     + destruct (N.eqb_spec j 3) as [->|].
       * unfold b64_store. destruct (N.leb_spec (n + (4 - 1)) cap); [|lia]. apply IH; lia.
       * apply IH; lia.
     + destruct (is_nl c).
       * apply IH; lia.
-      * destruct (c =? 61); [|discriminate]. destruct (j <? 2); [discriminate|].
+      * destruct (c =? 61); [|discriminate]. destruct (N.ltb_spec j 2); [discriminate|].
         destruct (N.eqb_spec j 2) as [->|].
         -- destruct (skip_nl rest) as [|c2 r2] eqn:Esk; [discriminate|].
            destruct ((c2 =? 61) && all_nl r2); [|discriminate].
            unfold b64_store. destruct (N.leb_spec (n + (2 - 1)) cap); [discriminate|].
-           destruct rest; [discriminate|]. simpl length in Hb. lia.
+           destruct rest; [discriminate|]. cbn [length] in Hb. rewrite Nat2N.inj_succ in Hb. lia.
         -- destruct (all_nl rest); [|discriminate].
            unfold b64_store. destruct (N.leb_spec (n + (3 - 1)) cap); [discriminate|]. lia.
 Qed.
@@ -242,13 +242,15 @@ Proof.
   unfold wellformed in Hwf. apply andb_true_iff in Hwf as [Hwf W3]. apply andb_true_iff in Hwf as [W1 W2].
   unfold valid_upgrade_rx in Hv.
   destruct (r_major r =? 1).
-  - repeat (apply andb_true_iff in Hv as [Hv ?H]).
-    apply negb_true_iff in Hv. rewrite Hv.
-    rewrite (tlcv_complete _ _ W1 H3), (tlcv_complete _ _ W2 H2), H4, (tlcv_complete _ _ W3 H1). simpl.
-    apply (key_valid_iff _ _ cap_ge_16) in H0. unfold header_get. rewrite H0. reflexivity.
+  - apply andb_true_iff in Hv as [Hv Hkey]. apply andb_true_iff in Hv as [Hv Hver].
+    apply andb_true_iff in Hv as [Hv Hupg]. apply andb_true_iff in Hv as [Hv Hcon].
+    apply andb_true_iff in Hv as [Hdis Hmeth].
+    apply negb_true_iff in Hdis. rewrite Hdis.
+    rewrite (tlcv_complete _ _ W1 Hcon), (tlcv_complete _ _ W2 Hupg), Hmeth, (tlcv_complete _ _ W3 Hver). simpl.
+    apply (key_valid_iff _ _ cap_ge_16) in Hkey. unfold header_get. rewrite Hkey. reflexivity.
   - destruct (r_major r =? 2); [|discriminate].
-    repeat (apply andb_true_iff in Hv as [Hv ?H]).
-    unfold header_get. rewrite H0, Hv, (tlcv_complete _ _ W3 H). reflexivity.
+    apply andb_true_iff in Hv as [Hv Hver]. apply andb_true_iff in Hv as [Hmeth Hproto].
+    unfold header_get. rewrite Hproto, Hmeth, (tlcv_complete _ _ W3 Hver). reflexivity.
 Qed.
 
 Theorem upgrade_iff : forall uh u r,
@@ -263,8 +265,8 @@ Qed.
 (* The unrestricted converse fails: RFC 7230 section 7 tells recipients to ignore empty list
    members, tokenListContainsValue gives up at the first one. *)
 Definition req_empty_member : request :=
-  mkRequest 1 s_GET [] [bytes_of_string "keep-alive, , Upgrade"] [s_websocket] [s_13]
-            [bytes_of_string "dGhlIHNhbXBsZSBub25jZQ=="] [] [] [] [].
+  mkRequest 1 s_GET [] [bytes_of_string "keep-alive, , Upgrade"%string] [s_websocket] [s_13]
+            [bytes_of_string "dGhlIHNhbXBsZSBub25jZQ=="%string] [] [] [] [].
 Definition cfg_plain : config := mkConfig None false false (Some true) false None.
 
 Theorem upgrade_rx_converse_refuted :
@@ -437,12 +439,12 @@ Proof.
   { rewrite !nosep_app. rewrite (sps_nosemi _ F1), (toks_nosemi _ F2), (sps_nosemi _ F3). reflexivity. }
   unfold ext_name.
   destruct (skip_space s1) as [|c r] eqn:Es.
-  - rewrite app_nil_r in E. rewrite E. rewrite split_on_nosep by exact Hnc. simpl.
+  - rewrite app_nil_r in E. rewrite E. rewrite (split_on_nosep 44 (sp1 ++ t ++ sp2)) by exact Hnc. simpl.
     rewrite hd_split_no_semi by exact Hns. exact Htrim.
-  - destruct Hh as [->|->].
+  - destruct Hh as [ -> | -> ].
     + (* ";" follows: the member continues, the name is what precedes the ";" *)
       replace s with ((sp1 ++ t ++ sp2) ++ 59 :: r) by (rewrite E; rewrite <- !app_assoc; reflexivity).
-      rewrite split_on_prefix_piece by exact Hnc.
+      rewrite (split_on_prefix_piece 44 (sp1 ++ t ++ sp2)) by exact Hnc.
       assert (Hx : exists y, hd [] (split_on 44 (59 :: r)) = 59 :: y).
       { simpl. destruct (split_on 44 r) as [|p ps] eqn:Esp; [exfalso; eapply split_on_nonempty; exact Esp|].
         simpl. eexists. reflexivity. }
@@ -450,7 +452,7 @@ Proof.
     + (* "," follows *)
       subst c.
       replace s with ((sp1 ++ t ++ sp2) ++ 44 :: r) by (rewrite E; rewrite <- !app_assoc; reflexivity).
-      rewrite split_on_app by exact Hnc. simpl. rewrite hd_split_no_semi by exact Hns. exact Htrim.
+      rewrite (split_on_app 44 (sp1 ++ t ++ sp2)) by exact Hnc. simpl. rewrite hd_split_no_semi by exact Hns. exact Htrim.
 Qed.
 
 Lemma hd_In : forall (l : list bytes), l <> [] -> In (hd [] l) l.
@@ -469,9 +471,9 @@ Proof.
     rewrite <- (ext_first_name s (t0 :: t') s1 _ s'' E ltac:(discriminate) Ep Hc).
     apply in_map. apply hd_In. apply split_on_nonempty. }
   destruct s' as [|c s2].
-  - destruct H as [<-|[]]. apply (Hfirst [] eq_refl I).
+  - destruct H as [ <- | Hf ]; [|destruct Hf]. apply (Hfirst [] eq_refl I).
   - destruct (N.eqb_spec c 44) as [->|]; [|destruct H].
-    destruct H as [<-|H].
+    destruct H as [ <- | H ].
     + apply (Hfirst (44 :: s2) eq_refl eq_refl).
     + specialize (IH s2 x H).
       (* s2 starts right after a comma of s *)
